@@ -30,7 +30,7 @@ type c04Case struct {
 	WantConf bool // reference: an unresolved conflict remains
 }
 
-var twists = []string{"", "", "", "unqualified-op", "cross-rule", "reduce-reduce", "mixed-assoc-level", "mixed-shift-levels", "three-way-cell", "unqualified-prefix", "unqualified-postfix"}
+var twists = []string{"", "", "", "unqualified-op", "cross-rule", "reduce-reduce", "mixed-assoc-level", "mixed-shift-levels", "three-way-cell", "unqualified-prefix", "unqualified-postfix", "unqualified-shares-operator"}
 
 // drawC04 draws a grammar of any kind (conflict-free, ambiguous, LR(1) but
 // not LALR(1), precedence-resolved, precedence-must-not-help). Returns nil if
